@@ -1802,6 +1802,11 @@ func patchCode(context *funcContext) { // {{{
 	}
 	moven := 0
 	code := context.Code.List()
+	// instructions some jump lands on: a bulk move must not swallow them as its tail
+	targets := make(map[int]bool, len(context.labelPc))
+	for _, lpc := range context.labelPc {
+		targets[lpc+1] = true
+	}
 	for pc := 0; pc < len(code); pc++ {
 		inst := code[pc]
 		curop := opGetOpCode(inst)
@@ -1901,6 +1906,13 @@ func patchCode(context *funcContext) { // {{{
 
 		// bulk move optimization(reducing op dipatch costs)
 		if curop == OP_MOVE {
+			if moven > 0 && targets[pc] {
+				if moven > 1 {
+					context.Code.SetOpCode(pc-moven, OP_MOVEN)
+					context.Code.SetC(pc-moven, intMin(moven-1, opMaxArgsC))
+				}
+				moven = 0
+			}
 			moven++
 		} else {
 			if moven > 1 {
